@@ -94,12 +94,20 @@ Theorem C02_gen_checkRevocationResults_iff : forall (C : Type) results (chain : 
 Proof. exact gen_checkRevocationResults_iff. Qed.
 Print Assumptions C02_gen_checkRevocationResults_iff.
 
-(* "revocation ok" (s_rev_ok of the model, Unrevoked of C02_Compose): one result per certificate,
-   each OK or non-revokable *)
+(* revocationFinalResult after that check: total (fix a146158), ResultOK iff every certificate
+   is OK or non-revokable *)
 Theorem C02_gen_revocationFinalResult_ok_iff : forall (C : Type) (subjs : C -> string) results (chain : list C),
   List.length results = List.length chain -> forallb res_nonnil results = true ->
-  forallb servers_nonnil results = true ->
   exists z s, gen_verifier_revocationFinalResult C subjs results chain = Some (z, s)
               /\ (z = 1%Z <-> forallb res_ok results = true).
 Proof. exact gen_revocationFinalResult_ok_iff. Qed.
 Print Assumptions C02_gen_revocationFinalResult_ok_iff.
+
+(* "revocation ok" ([s_rev_ok] of the model, [Unrevoked] of C02_Compose) on the code's own two
+   functions: one result per certificate, each OK or non-revokable *)
+Theorem C02_gen_revocation_passes_iff : forall (C : Type) (subjs : C -> string) results (chain : list C),
+  (gen_verifier_checkRevocationResults C results chain = None
+   /\ exists s, gen_verifier_revocationFinalResult C subjs results chain = Some (1%Z, s))
+  <-> rev_answer_ok C results chain.
+Proof. exact gen_revocation_passes_iff. Qed.
+Print Assumptions C02_gen_revocation_passes_iff.
